@@ -10,7 +10,7 @@ use dcbor::prelude::*;
 
 pub struct Budget { pub scenarios: usize, pub thorough: bool }
 
-fn observe_env(c: &mut Ctx, reg: &str, bytes: bool) {
+pub(crate) fn observe_env(c: &mut Ctx, reg: &str, bytes: bool) {
     if let Some(e) = c.env(reg) {
         c.note_shape(&e);
         c.obs(&format!("shape {}", reg));
@@ -73,7 +73,7 @@ pub fn c01(c: &mut Ctx, b: &Budget) {
 }
 
 /// position-by-position digest comparison of a transformed envelope with its original
-fn check_positions(orig: &Envelope, res: &Envelope) -> Result<usize, String> {
+pub(crate) fn check_positions(orig: &Envelope, res: &Envelope) -> Result<usize, String> {
     if orig.digest() != res.digest() { return Err(format!("root digest changed: {} -> {}", hex::encode(orig.digest().data()), hex::encode(res.digest().data()))); }
     let els = elements(res);
     for (p, x) in &els {
@@ -194,7 +194,7 @@ pub fn c05(c: &mut Ctx, b: &Budget) {
     }
 }
 
-fn roundtrip(c: &mut Ctx, cur: &str) {
+pub(crate) fn roundtrip(c: &mut Ctx, cur: &str) {
     let e = match c.env(cur) { Some(e) => e, None => return };
     observe_env(c, cur, true);
     let r = c.assign(&format!("recode {}", cur));
